@@ -266,6 +266,9 @@ def run_launcher(cases, tmpdir):
 
 
 # ---------------------------------------------------------------- observation of one run
+MSG_RE = r'\[exception\] (?:cannot connect to .*? port \d+: \[Errno -?\d+\] (?:Name or service not known|Connection refused)|host .*? has no DNS records)'
+
+
 def observe(sc, r):
     """Canonical view of a launcher result."""
     st, out = r['status'], r['out']
@@ -290,13 +293,30 @@ def observe(sc, r):
         for m in re.finditer(r'\{"errors".*?"warnings": \[[^\]]*\]\}', out):
             d = json.loads(m.group(0))
             labels.append('%s|%d' % (d['host'], d['port']))
-    # error reports; in JSON multi-target mode they are glued to the list punctuation, so cut at the known endings
-    msgs2 = re.findall(r'\[exception\] (?:cannot connect to .*? port \d+: \[Errno -?\d+\] (?:Name or service not known|Connection refused)|host .*? has no DNS records)', out)
+    # error reports; in JSON single-target mode they are plain lines
+    msgs2 = re.findall(MSG_RE, out)
+    wlabels = []
+    if sc['where'] == 'file' and okind in ('json', 'policy-json') and kind == 2:
+        # -T with -j prints ONE JSON array; an element with an 'error' key wraps the report of a target that could not be audited
+        try:
+            arr = json.loads(out)
+        except ValueError:
+            arr = None
+        if isinstance(arr, list):
+            labels, msgs2 = [], []
+            for el in arr:
+                if isinstance(el, dict) and 'error' in el:
+                    wlabels.append(el.get('target'))
+                    msgs2 += re.findall(MSG_RE, el['error'])
+                elif okind == 'json':
+                    labels.append(el.get('target'))
+                else:
+                    labels.append('%s|%d' % (el['host'], el['port']))
     uniq = []
     for c in r['conn']:
         if not uniq or uniq[-1] != c:
             uniq.append(c)
-    return {'kind': kind, 'gai': [[g[0], g[1], g[2]] for g in r['gai']], 'conn': r['conn'], 'uconn': uniq, 'msgs': msgs2, 'labels': labels, 'status': st}
+    return {'kind': kind, 'gai': [[g[0], g[1], g[2]] for g in r['gai']], 'conn': r['conn'], 'uconn': uniq, 'msgs': msgs2, 'labels': labels, 'wlabels': wlabels, 'status': st}
 
 
 # ---------------------------------------------------------------- the property statement, evaluated on a run
@@ -348,7 +368,7 @@ def oracle(ctx, sc, ob):
     where = sc['where']
     popt = '-p' if sc['oport'] is not None else 'no-p'
     fam = {(): 0, (4,): AF4, (6,): AF6}.get(tuple(sc['flags']), 0)
-    replay = {'op': 'run', 'scenario': sc, 'observed': {k: ob[k] for k in ('kind', 'gai', 'conn', 'msgs', 'labels', 'status')}}
+    replay = {'op': 'run', 'scenario': sc, 'observed': {k: ob[k] for k in ('kind', 'gai', 'conn', 'msgs', 'labels', 'wlabels', 'status')}}
     bad_opt = sc['oport'] is not None and not 1 <= sc['oport'] <= 65535
     bad_targets = [e for e in exp if not e[3]]
     n = 0
@@ -416,6 +436,17 @@ def oracle(ctx, sc, ob):
                 v6 = 'ipv6' if host_kind(h) == 'v6' else host_kind(h)
                 ctx.violation('label/%s/%s/%s' % (sc['out'], v6, 'missing' if not ob['labels'] else 'does-not-denote-target'),
                               'target host %r port %d: the %s report carries the labels %r which read as %r under the documented target grammar' % (h, p, sc['out'], ob['labels'], dec), replay)
+        if sc['where'] == 'file' and sc['out'] in ('json', 'policy-json'):
+            # a target that could not be audited is reported as a JSON element {"target": ..., "error": ...}
+            for (t, h, p, _v) in exp:
+                if want_dial(sc, h, p) is not None or [h, p, fam] not in ugot:
+                    continue
+                n += 1
+                dec = [doc_decode(lb) for lb in ob['wlabels'] if isinstance(lb, str)]
+                if not any(d is not None and d[0] == h and (d[1] if d[1] is not None else 22) == p for d in dec):
+                    v6 = 'ipv6' if host_kind(h) == 'v6' else host_kind(h)
+                    ctx.violation('label/json/%s/%s' % (v6, 'missing' if not ob['wlabels'] else 'does-not-denote-target'),
+                                  'target host %r port %d could not be audited: its JSON error element carries the targets %r which read as %r under the documented target grammar' % (h, p, ob['wlabels'], dec), replay)
     else:
         for (t, h, p, _v) in exp:
             if [h, p, fam] not in ugot:
@@ -510,7 +541,7 @@ def eval_scenarios(ctx, scs, tmpdir, add):
         FL = clist(sc['flags'], cz)
         OP = copt(sc['oport'], cz)
         desc = {'op': 'run-%s-%s' % (sc['where'], sc['mode']), 'argv': sc['argv'], 'content': sc.get('content'), 'table': sc['table'],
-                'observed': {k: ob[k] for k in ('kind', 'gai', 'uconn', 'msgs', 'labels', 'status')}}
+                'observed': {k: ob[k] for k in ('kind', 'gai', 'uconn', 'msgs', 'labels', 'wlabels', 'status')}}
         src = ('run_single %s %s' % (cstr(sc['arg']), OP)) if sc['where'] == 'cli' else ('run_file %s %s' % (cstr(sc['content']), OP))
         nt = (sc['where'], sc['mode'], tuple(t['kind'] for t in sc['targets'])[:3], sc['oport'] is not None, tuple(sc['flags']), ob['kind'], sc.get('odd'), sc.get('out'))
         if sc['mode'] == 'refuse':
@@ -518,7 +549,8 @@ def eval_scenarios(ctx, scs, tmpdir, add):
         else:
             lab = {'text': 'text_label', 'json': 'json_label', 'policy-text': 'text_label', 'policy-json': 'pj_label'}[sc['out']]
             tsrc = ('targets_single %s %s' % (cstr(sc['arg']), OP)) if sc['where'] == 'cli' else ('targets_file %s %s' % (cstr(sc['content']), OP))
-            add('chk_peer %s (%s) (pref_of_flags %s) %s %s %s %s' % (lab, tsrc, FL, R, cbool(ob['kind'] == 2), clist(ob['labels'] + ob['msgs'], cstr), clist(ob['uconn'], cconn)), desc, nt)
+            add('chk_peer %s (%s) (pref_of_flags %s) %s %s %s %s %s %s' % (lab, tsrc, FL, R, cbool(ob['kind'] == 2), clist(ob['labels'] + ob['msgs'], cstr), clist(ob['uconn'], cconn),
+                cbool(sc['where'] == 'file' and sc['out'] in ('json', 'policy-json')), clist(ob['wlabels'], cstr)), desc, nt)
         n_or += oracle(ctx, sc, ob)
     return n_or
 
